@@ -284,6 +284,30 @@ func c03GenPipeCases(g *gen, n int, resume func() bool, resumed bool) {
 	}
 }
 
+// pipe cases in which some values are large (beyond 64 KiB, beyond 1 MiB): the offsets attached to the commands after
+// them — and so the checkpoints — depend on the decoder counting every byte of such a value
+func c03GenBigPipeCases(g *gen, sizes []int, resume bool) {
+	for i, sz := range sizes {
+		pc := c0304PipeCfgs[0]
+		cmds := c03GenStream(g, c03StreamOpt{n: 4 + g.r.Intn(5), dbs: pc.dbs, keyFilter: pc.keyF, endMarker: fmt.Sprintf("__endbig__%d", i), endDb: pc.endDb, avoidFirst: -1})
+		big := make([]byte, sz)
+		for k := range big {
+			big[k] = byte(k*7 + k/251)
+		}
+		at := 1 + g.r.Intn(len(cmds)-2)
+		for cmds[at-1].name == "multi" || (at < len(cmds) && strings.EqualFold(cmds[at].name, "exec")) {
+			at-- // keep MULTI … EXEC groups as generated
+			if at < 1 {
+				at = 1
+				break
+			}
+		}
+		ins := c03SrcCmd{name: "set", args: [][]byte{[]byte(fmt.Sprintf("big%d", i)), big}}
+		cmds = append(cmds[:at], append([]c03SrcCmd{ins}, cmds[at:]...)...)
+		g.emit("pipe %s %s 0 0 %s %s", pc.pcfg, c03ScfgStr(g, c0304Scfgs[i%len(c0304Scfgs)], resume), c03FmtCmds(cmds), strings.Repeat("0", len(cmds)))
+	}
+}
+
 func c03GenParseCases(g *gen, n int) {
 	for i := 0; i < n; i++ {
 		tdb := []int{-1, -1, -1, 0, 1, 2}[g.r.Intn(6)]
@@ -330,4 +354,5 @@ func genC03(g *gen) {
 		g.emit("pipe %s %s 0 0 %s %s", pc.pcfg, c03ScfgStr(g, fmt.Sprintf("cnt=%d,size=65535,met=1,dcap=2", 1+i%2), i%2 == 1), c03FmtCmds(cmds), strings.Repeat("0", len(cmds)))
 	}
 	c03GenParseCases(g, g.pick(2000, 50000))
+	c03GenBigPipeCases(g, g.pickInts([]int{65600, 1048700}, []int{65534, 65535, 65600, 1048574, 1048575, 1048700, 3000000}), false)
 }
